@@ -473,3 +473,52 @@ def limited(fn, seconds=20.0):
         return fn()
     finally:
         signal.setitimer(signal.ITIMER_REAL, 0)
+
+
+# -- deterministic evidence: the pool merges job results in completion order -------------------------
+
+def note_violation(part, key, what, detail):
+    """part.violation() plus a pooled copy of the job's first case per key, so that finalize() can
+    report the same (smallest) case on every run whatever the order in which jobs complete."""
+    if not any(v['key'] == key for v in part.violations):
+        part.note('_violation_pool', [[key, what, detail]])
+    part.violation(key, what, detail)
+
+
+def note_sample(part, sample):
+    part.note('_sample_pool', [sample])
+
+
+def finalize(total, max_samples=6, prefer=None):
+    """Call from coverage_extra(): canonical violation texts and evenly spread, sorted samples."""
+    import json
+
+    def order(x):
+        s = json.dumps(x, sort_keys=True, default=repr)
+        return len(s), s
+
+    pool = total.notes.pop('_violation_pool', [])
+    for v in total.violations:
+        cands = [(what, detail) for key, what, detail in pool if key == v['key']]
+        if cands:
+            v['what'], v['detail'] = min(cands, key=lambda c: ((prefer(c[1]) if prefer else 0,) + order([c[1], c[0]])))
+    samples = sorted(total.notes.pop('_sample_pool', []), key=order)
+    if samples:
+        step = max(1, len(samples) // max_samples)
+        total.samples = samples[::step][:max_samples]
+    return {}
+
+
+def spec_kind(spec):
+    return 'prime' if spec.get('mod') is None else 'binary' if spec['p'] == 2 else 'ext_odd'
+
+
+def guarded_adapter(part, pid, spec, detail):
+    """Build the real field and its adapter under the watchdog.  A valid modulus that the code under
+    test rejects (or loops on) is reported as a violation; returns None in that case."""
+    try:
+        return limited(lambda: Adapter(make_field(spec)), 120.0)
+    except Exception as exc:
+        note_violation(part, f'{pid}:field_construction:{spec_kind(spec)}' + (':hang' if isinstance(exc, Hang) else ''),
+                       f'{field_name(spec)}: constructing the field raised {type(exc).__name__}: {exc}', detail)
+        return None
